@@ -1002,6 +1002,151 @@ where
     }
 }
 
+//
+// Verification hooks.
+//
+#[cfg(mini_moka_verif)]
+impl<K, V, S> Cache<K, V, S>
+where
+    K: Hash + Eq,
+    S: BuildHasher + Clone,
+{
+    /// Replaces the expiration clock with a mock clock and returns its handle.
+    pub fn verif_install_mock_clock(&mut self) -> crate::verif::MockClock {
+        let (clock, mock) = Clock::verif_mock();
+        self.expiration_clock = Some(clock);
+        crate::verif::MockClock { mock }
+    }
+
+    pub fn verif_hash(&self, key: &K) -> u64 {
+        self.build_hasher.hash_one(key)
+    }
+
+    pub fn verif_frequency(&self, hash: u64) -> u8 {
+        self.frequency_sketch.frequency(hash)
+    }
+
+    /// A deep copy of the live frequency sketch.
+    pub fn verif_sketch(&self) -> crate::verif::VerifSketch {
+        crate::verif::VerifSketch(self.frequency_sketch.verif_clone())
+    }
+
+    /// Takes a snapshot of the internal data structures and walks the deques.
+    pub fn verif_snapshot(
+        &self,
+        key_id: impl Fn(&K) -> u64,
+        value_id: impl Fn(&V) -> u64,
+    ) -> crate::verif::Snapshot {
+        use crate::verif::{DequeSnap, EntrySnap, NodeSnap, Snapshot};
+        use std::collections::HashSet;
+
+        let mut ao_addrs = HashSet::new();
+        let mut wo_addrs = HashSet::new();
+
+        let mut walk_ao = |deq: &Deque<KeyHashDate<K>>| {
+            let (nodes, errors) = deq.verif_walk();
+            let nodes = nodes
+                .into_iter()
+                .map(|n| {
+                    ao_addrs.insert(n.as_ptr() as usize);
+                    let e = &unsafe { n.as_ref() }.element;
+                    NodeSnap {
+                        addr: n.as_ptr() as usize,
+                        key: key_id(&e.key),
+                        hash: e.hash,
+                        info_addr: 0,
+                        timestamp: e.timestamp.map(|t| t.verif_std()),
+                    }
+                })
+                .collect();
+            DequeSnap {
+                nodes,
+                len: deq.verif_len(),
+                errors,
+            }
+        };
+        let window = walk_ao(&self.deques.window);
+        let probation = walk_ao(&self.deques.probation);
+        let protected = walk_ao(&self.deques.protected);
+
+        let write_order = {
+            let deq = &self.deques.write_order;
+            let (nodes, errors) = deq.verif_walk();
+            let nodes = nodes
+                .into_iter()
+                .map(|n| {
+                    wo_addrs.insert(n.as_ptr() as usize);
+                    let e = &unsafe { n.as_ref() }.element;
+                    NodeSnap {
+                        addr: n.as_ptr() as usize,
+                        key: key_id(&e.key),
+                        hash: 0,
+                        info_addr: 0,
+                        timestamp: e.timestamp.map(|t| t.verif_std()),
+                    }
+                })
+                .collect();
+            DequeSnap {
+                nodes,
+                len: deq.verif_len(),
+                errors,
+            }
+        };
+
+        let entries = self
+            .cache
+            .iter()
+            .map(|(k, entry)| {
+                let ao_node = entry.access_order_q_node().map(|tagged| {
+                    let (node, tag) = tagged.decompose();
+                    (node.as_ptr() as usize, tag)
+                });
+                let wo_node = entry.write_order_q_node().map(|n| n.as_ptr() as usize);
+                // Only follow the back-pointers that lead to a reachable node.
+                let ao_ok = ao_node.map(|(a, _)| ao_addrs.contains(&a)).unwrap_or(false);
+                let wo_ok = wo_node.map(|a| wo_addrs.contains(&a)).unwrap_or(false);
+                EntrySnap {
+                    key: key_id(k),
+                    value: value_id(&entry.value),
+                    weight: entry.policy_weight(),
+                    accounted_weight: None,
+                    admitted: ao_node.is_some(),
+                    dirty: false,
+                    last_accessed: if ao_ok {
+                        entry.last_accessed().map(|t| t.verif_std())
+                    } else {
+                        None
+                    },
+                    last_modified: if wo_ok {
+                        entry.last_modified().map(|t| t.verif_std())
+                    } else {
+                        None
+                    },
+                    info_addr: 0,
+                    ao_node,
+                    wo_node,
+                }
+            })
+            .collect();
+
+        Snapshot {
+            entries,
+            window,
+            probation,
+            protected,
+            write_order,
+            entry_count: self.entry_count,
+            weighted_size: self.weighted_size,
+            max_capacity: self.max_capacity,
+            read_ch_len: 0,
+            write_ch_len: 0,
+            sketch_enabled: self.frequency_sketch_enabled,
+            valid_after: None,
+            is_sync_running: false,
+        }
+    }
+}
+
 #[derive(Default)]
 struct EntrySizeAndFrequency {
     weight: u64,
